@@ -32,7 +32,10 @@ SPECS = [
     (((2, 2, 1), (2, 2)), [(0, 0), (0, 3), (1, 2), (2, 4), (3, 3), (4, 4)]),
     (((1, 2), (3, 1, 2), (1,)), [(0, 1), (0, 5), (1, 1), (2, 3), (3, 5), (5, 5)]),
     (((2, 2, 2), (2, 2), (2,)), [(0, 2), (1, 1), (1, 5), (3, 4), (4, 5)]),
+    # square storage: pixels on both sides of the diagonal, so a selection's column bins can lie BELOW all of its row bins
+    (((2, 2, 1), (2, 2)), [(0, 3), (1, 1), (2, 1), (3, 0), (4, 2), (4, 4)]),
 ]
+SQUARE = {3}
 
 
 def make(si, enc):
@@ -47,7 +50,7 @@ def make(si, enc):
     bdf = build.bins_df(bins)
     bdf["gc"] = [0.25 + 0.125 * k for k in range(n)]
     pix = fx.pixvals(cells, n)
-    cooler.create_cooler(p, bdf, fx.frame(pix), columns=["count", "score"], dtypes={"score": float}, ordered=True)
+    cooler.create_cooler(p, bdf, fx.frame(pix), columns=["count", "score"], dtypes={"score": float}, ordered=True, symmetric_upper=si not in SQUARE)
     if enc == "int":
         with h5py.File(p, "r+") as f:
             ids = f["bins/chrom"][:].astype(np.int32)
@@ -61,9 +64,12 @@ def make(si, enc):
 def units(tier):
     for si in range(len(SPECS)):
         for enc in ("enum", "int"):
+            if si in SQUARE and enc == "int":
+                continue
             for tab in ("chroms", "bins", "pixels"):
-                yield {"leg": "sel", "s": si, "enc": enc, "tab": tab}
-            for size in (0, 1, 2, 3, 4, "rep"):
+                if si not in SQUARE or tab == "pixels":
+                    yield {"leg": "sel", "s": si, "enc": enc, "tab": tab}
+            for size in ((0, 1, 2, 3) if si in SQUARE else (0, 1, 2, 3, 4, "rep")):
                 if size == 4:
                     for part in (range(8) if tier == "thorough" else (0, 2, 4, 6)):   # quick: every other ordered 4-selection
                         yield {"leg": "ann", "s": si, "enc": enc, "size": size, "part": part, "of": 8}
